@@ -318,6 +318,14 @@ def check(prog, rep):
     from ..rules_own import copy_protocol
 
     copy_protocol(prog, rep)
+    # nothing on the way is memoised on a key that does not determine the answer
+    from ..rules_own import memo_rule
+
+    memo_rule(prog, rep, rule="MEMO")
+    # cut pieces get their length through Event.duration (C13-DURATION: a timedelta is kept exactly)
+    from .c13 import duration_dispatch
+
+    duration_dispatch(prog, rep)
 
 
 VARIANTS = [
